@@ -161,6 +161,8 @@ def session_trace_phase(out, raws, tier):
     (b) the repository's own doctests and the tests that drive the runner."""
     import random
     from . import tracelib, probe
+    if not tracelib.probe_usable(out):
+        return
     d = common.scratch_dir('xdv-c10tr')
     prefix = os.path.join(d, 'tr')
     sample = random.Random(common.seed() + 10).sample(raws, min(len(raws), 600 if tier == 'quick' else 6000))
